@@ -80,13 +80,17 @@ def cat_component(dspec):
 
 
 def cat_value_from(dspec, total, u1, u2):
-    """Categorical part of a measured value (removes the positional term of a combined dissimilarity)."""
+    """Categorical part of a measured value, normalised by delta_empty (removes the positional term of a combined
+    dissimilarity).  Returns (value, absolute error bound): the measured total is a float32 quantity, so removing a
+    large positional term and dividing by a small beta*delta amplifies its rounding error."""
+    delta = float(_f32(dspec["delta"]))
     if dspec["kind"] != "combined":
-        return total / float(_f32(dspec["delta"]))
+        return total / delta, 4e-6 * abs(total) / delta
     if dspec["beta"] == 0:
         return None
-    pos = formula({"kind": "positional", "delta": dspec["delta"]}, u1, u2)
-    return (total - dspec["alpha"] * pos) / dspec["beta"] / float(_f32(dspec["delta"]))
+    pos = dspec["alpha"] * formula({"kind": "positional", "delta": dspec["delta"]}, u1, u2)
+    scale = dspec["beta"] * delta
+    return (total - pos) / scale, 4e-6 * max(abs(total), abs(pos)) / scale
 
 
 # ----------------------------------------------------------------------------- measuring the three forms
@@ -163,7 +167,7 @@ def check_case(ctx, case):
             for form in ("d", "compiled"):
                 cv = cat_value_from(dspec, m[form], u1, u2)
                 if cv is not None:
-                    prop_points.append((form, u1[2], u2[2], cv, idx))
+                    prop_points.append((form, u1[2], u2[2], cv[0], idx, cv[1]))
     if prop_points:
         check_proportional(ctx, dspec, comp, prop_points, delta)
     twin = case.get("twin")
@@ -176,39 +180,41 @@ def check_proportional(ctx, dspec, comp, points, delta):
     if comp["kind"] == "levenshtein":
         # value == edit distance / normaliser(len1, len2); normaliser in {max len, max len + 1}, one choice per instance
         ok = {0: True, 1: True}
-        for form, l1, l2, cv, idx in points:
+        for form, l1, l2, cv, idx, err in points:
             ctx.count("M-FORMULA")
             dist = oracles.levenshtein(l1, l2)
             for plus in (0, 1):
                 norm = max(len(l1), len(l2)) + plus
                 ref = dist / norm if norm else 0.0
-                if not abs(cv - ref) <= 2e-5 * max(1.0, abs(ref)) + 1e-5:
+                if not abs(cv - ref) <= 2e-5 * max(1.0, abs(ref)) + 1e-5 + err:
                     ok[plus] = False
         if not (ok[0] or ok[1]):
             ctx.fail(f"{kind}:not-the-proportional-edit-distance",
-                     {"points": [(l1, l2, cv, oracles.levenshtein(l1, l2)) for _, l1, l2, cv, _ in points[:6]]},
+                     {"points": [(l1, l2, cv, oracles.levenshtein(l1, l2), err) for _, l1, l2, cv, _, err in points[:6]]},
                      monitor="M-FORMULA")
         return
     pos = positions_of(comp)
     k_est = None
-    for form, l1, l2, cv, idx in points:
+    for form, l1, l2, cv, idx, err in points:
         ctx.count("M-FORMULA")
         dist = abs(pos[l1] - pos[l2])
         if dist == 0:
-            if abs(cv) > 1e-5:
+            if abs(cv) > 1e-5 + err:
                 ctx.fail(f"{kind}:nonzero-for-equal-positions", {"labels": [l1, l2], "value": cv, "form": form},
                          monitor="M-FORMULA")
             continue
         k = cv / dist
+        if err / dist > 0.02 * abs(k):
+            continue          # this pair's categorical term is drowned in the rounding of a large positional term
         if k <= 0:
             ctx.fail(f"{kind}:not-proportional-to-position-distance", {"labels": [l1, l2], "value": cv, "distance": dist,
                                                                        "form": form}, monitor="M-FORMULA")
             continue
         if k_est is None:
-            k_est = (k, l1, l2, cv, dist)
-        elif abs(k - k_est[0]) > 2e-4 * max(k, k_est[0]) + 1e-5 / dist:
+            k_est = (k, l1, l2, cv, dist, (1e-5 + err) / dist)
+        elif abs(k - k_est[0]) > 2e-4 * max(k, k_est[0]) + (1e-5 + err) / dist + k_est[5]:
             ctx.fail(f"{kind}:not-proportional-to-position-distance",
-                     {"pair1": k_est[1:], "k1": k_est[0], "pair2": [l1, l2, cv, dist], "k2": k, "form": form,
+                     {"pair1": k_est[1:5], "k1": k_est[0], "pair2": [l1, l2, cv, dist], "k2": k, "form": form,
                       "labels_supplied": comp["cats"][:12], "p": (comp.get("p") or [])[:12]}, monitor="M-FORMULA")
 
 
